@@ -60,8 +60,8 @@ template<char op, typename R> constexpr fixed_t ce_assign(fixed_t l, R r) noexce
   { if constexpr(op=='+') l += r; else if constexpr(op=='-') l -= r; else if constexpr(op=='*') l *= r; else l /= r; return l; }
 '''
 
-CONFIGS_QUICK = [("g++", "c++20", False), ("clang++-14", "c++20", False), ("g++", "c++17", True)]
-CONFIGS_THOROUGH = CONFIGS_QUICK + [("g++", "c++2b", False), ("clang++-14", "c++2b", False), ("clang++-14", "c++17", True), ("g++", "c++17", False), ("clang++-14", "c++17", False)]
+CONFIGS_QUICK = [("g++", "c++20", False), ("clang++-14", "c++20", False), ("g++", "c++17", True), ("clang++-14", "c++17", True)]
+CONFIGS_THOROUGH = CONFIGS_QUICK + [("g++", "c++2b", False), ("clang++-14", "c++2b", False), ("g++", "c++17", False), ("clang++-14", "c++17", False)]
 
 def run(lines, model_ab, parse_line, tier, limit, priority=(), configs=None):
     """returns (stats, failures) ; failures: list of dict(input, config, error)"""
@@ -99,6 +99,7 @@ def run(lines, model_ab, parse_line, tier, limit, priority=(), configs=None):
                     fh.write("static_assert( %s == %s, \"%s\" );\n" % (e, lit(v), line))
                 fh.write("int main(){}\n")
             cmd = [cxx, "-std=" + std, "-fsyntax-only", "-w", "-I", fmlib.INC, "-ftemplate-depth=2000"] + (["-DFIXEDMATH_ENABLE_SQRT_ABACUS_ALGO"] if abacus else [])
+            if cxx == "g++" and std == "c++17": cmd += ["-Os"]      # one configuration sees the size-optimisation macros
             if cxx.startswith("clang"): cmd += ["-fconstexpr-steps=100000000"]
             else: cmd += ["-fconstexpr-ops-limit=1000000000", "-fconstexpr-loop-limit=10000000"]
             r = subprocess.run(cmd + [src], capture_output=True, text=True)
